@@ -8,8 +8,11 @@
    and then answers TEOF (truncation) or TFault (a non-EOF error on every further Read), under any chunk schedule,
    with or without the last chunk arriving together with that condition. *)
 From Coq Require Import NArith List Bool Arith.
-From FitV Require Import Model.Crc Model.IO Model.Header Model.Route Model.Components Model.Decode
-  Proofs.IOSim Proofs.C10IO Proofs.C10Frame Proofs.C11Cut Proofs.C10Examples.
+From FitV Require Import Model.Values Model.Crc Model.IO Model.Header Model.Route Model.Components Model.Decode
+  Spec.FitSyntax Spec.RouteSpec Gen.Consts
+  Proofs.IOSim Proofs.C10IO Proofs.C10Frame Proofs.C11Cut Proofs.C10Examples
+  Proofs.StreamDenoteDefs Proofs.StreamDenoteLift Proofs.StreamDenoteMain Proofs.StreamDenoteFrame Proofs.StreamDenoteDecode
+  Proofs.StreamDenoteWitness Proofs.C11Partial Proofs.C11PartialExamples.
 Import ListNotations.
 
 (* ---- the buffered phase, for EVERY decoder program ---- *)
@@ -119,13 +122,160 @@ Example C11_example_cuts :
                     end) (seq 0 25) = true.
 Proof. exact ex_cuts_are_errors. Qed.
 
-(* PARTIAL (said in the manifest too):
-   - DecodeHeaderAndFileID (file_id-only mode) is not covered by C11_cut_is_error: its success does not consume a
-     determined number of bytes (read-ahead), so "cut before the end of the file_id message" needs the position of
-     the abstract run; C11_run_cut and C11_io_error_is_reported apply to it, the whole-entry statement is checked by
-     the harness on every cut and fault offset.
-   - partial_files: that the Files returned with the error contain exactly the messages of the records complete
-     before the cut is NOT proved; proved is that the state at the failure is the state of the abstract run on the
-     cut input (C11_partial_state_independent) and that this run is a prefix of the whole run (C11_run_cut).  The
-     harness judges every partial File against the extracted reference semantics of the complete records.
-   - the theorems speak about the model; reader.go is tied to it by the lock-step run on every cut and fault offset. *)
+(* ---- partial_files ---- *)
+(* Domain: that of Decode_denote (a well-formed header announcing exactly the bytes of the serialisable record list rs,
+   which begins with the file_id definition and data record, is accepted by the reference semantics and has a file
+   type with a container).  [completed n rs] = the records that lie completely within the first n data bytes;
+   [route_msgs h g msgs] = the File made by File.add of the first message, File.init, File.add of the others.
+   For EVERY offset n of the data section and EVERY reader holding the header and the first n data bytes -- any
+   chunking, ending in a clean EOF (cut) or a non-EOF error (fault), with or without data-with-error -- Decode returns
+   an I/O error together with a File carrying the header and
+     - no message and no container while fewer than the two file_id records are complete (boundary case: the cut
+       falls inside the file_id definition or the file_id data record);
+     - otherwise exactly the routed messages of the records complete before the offset, slot for slot, and the
+       accumulator state those messages leave. *)
+Theorem C11_partial_files : forall o g rd fuel h rs ss f2 g1 n,
+  header_wf h -> h_dsize h = N.of_nat (List.length (ser_records rs)) ->
+  starts_with_file_id rs = true -> stream_wf rs = true -> denote rs = Some ss ->
+  start_file h g (hd dummy_msg (ss_msgs ss)) = Some (f2, g1) ->
+  n < List.length (ser_records rs) ->
+  rd_data rd = hdr_bytes h ++ firstn n (ser_records rs) -> wf rd fuel ->
+  exists res e file',
+    entry_Decode o g rd fuel = TDone res /\ dr_err res = Some (EIO e) /\ dr_hdr res = h /\ dr_file res = Some file' /\
+    f_header file' = h /\
+    (List.length (completed n rs) < 2 -> f_slots file' = f_slots (new_file h) /\ f_inited file' = None /\ dr_g res = g) /\
+    (2 <= List.length (completed n rs) ->
+     exists ssd f g', denote (completed n rs) = Some ssd /\ route_msgs h g (ss_msgs ssd) = Some (f, g') /\
+                      f_slots file' = f_slots f /\ f_inited file' = f_inited f /\ dr_g res = g').
+Proof. exact Decode_partial_files_at. Qed.
+Print Assumptions C11_partial_files.
+
+(* the same in the form the stream theory uses (the completed records rs and the record r in flight given
+   explicitly; the records after r need not even be well formed) *)
+Theorem C11_partial_file_records :
+  forall o g rd fuel h l be fds (devflag : bool) (devs : list (N * N * N)) pay dev rest r cut rem ss1 ss2 f2 g1,
+  let rs := RDef l be c_MesgNumFileId fds devflag devs :: RData l pay dev :: rest in
+  header_wf h ->
+  rd_data rd = hdr_bytes h ++ ser_records rs ++ cut ->
+  List.length (ser_records rs ++ cut) < N.to_nat (h_dsize h) ->
+  stream_wf rs = true -> denote rs = Some ss1 ->
+  start_file h g (hd dummy_msg (ss_msgs ss1)) = Some (f2, g1) ->
+  rec_wf r = true -> denote_record ss1 r = Some ss2 ->
+  ser_record r = cut ++ rem -> rem <> [] ->
+  wf rd fuel ->
+  exists res e file' f g',
+    entry_Decode o g rd fuel = TDone res /\ dr_err res = Some (EIO e) /\ dr_hdr res = h /\ dr_file res = Some file' /\
+    dr_g res = g' /\
+    route_msgs h g (ss_msgs ss1) = Some (f, g') /\
+    f_slots file' = f_slots f /\ f_inited file' = f_inited f /\ f_header file' = h.
+Proof. exact Decode_partial_file. Qed.
+
+(* boundary case: the input ends inside the two checksum bytes: every record was decoded, the File holds the routed
+   messages of the whole stream, the error is the checksum read error *)
+Theorem C11_partial_files_cut_in_crc : forall o g rd fuel h rs ss1 f2 g1 c,
+  header_wf h -> h_dsize h = N.of_nat (List.length (ser_records rs)) ->
+  starts_with_file_id rs = true -> stream_wf rs = true -> denote rs = Some ss1 ->
+  start_file h g (hd dummy_msg (ss_msgs ss1)) = Some (f2, g1) ->
+  rd_data rd = hdr_bytes h ++ ser_records rs ++ c -> List.length c < 2 ->
+  wf rd fuel ->
+  exists res file' f g',
+    entry_Decode o g rd fuel = TDone res /\ dr_err res = Some EFileCRCRead /\ dr_hdr res = h /\ dr_file res = Some file' /\
+    dr_g res = g' /\
+    route_msgs h g (ss_msgs ss1) = Some (f, g') /\
+    f_slots file' = f_slots f /\ f_inited file' = f_inited f /\ f_header file' = h.
+Proof. exact Decode_cut_in_crc. Qed.
+
+(* boundary case: the input ends inside the header: an error and no File at all (every mode) *)
+Theorem C11_partial_files_cut_in_header : forall o md g rd fuel h body k,
+  header_wf h -> k < N.to_nat (h_size h) -> rd_data rd = firstn k (hdr_bytes h ++ body) -> wf rd fuel ->
+  exists res e, decode o md g rd fuel = TDone res /\ dr_err res = Some e /\ dr_file res = None /\ dr_g res = g /\
+                (e = EReadSizeEOF -> k = 0 /\ rd_term rd = TEOF).
+Proof. exact decode_cut_in_header. Qed.
+
+(* DecodeChained: after a chain prefix that decodes (chain_ok), a cut or fault inside a record of the next file:
+   the Files of the complete files followed by exactly one partial File, which holds the routed messages of the
+   records complete before the cut (routed from the accumulator state g1 the prefix left) *)
+Theorem C11_chained_partial_files :
+  forall o g pre fs1 g1 q1 rd fuel h l be fds (devflag : bool) (devs : list (N * N * N)) pay dev rest r cut rem ss1 ss2 f2 g2,
+  let rs := RDef l be c_MesgNumFileId fds devflag devs :: RData l pay dev :: rest in
+  chain_ok o g pre fs1 g1 q1 ->
+  header_wf h ->
+  rd_data rd = concat pre ++ hdr_bytes h ++ ser_records rs ++ cut ->
+  List.length (ser_records rs ++ cut) < N.to_nat (h_dsize h) ->
+  stream_wf rs = true -> denote rs = Some ss1 ->
+  start_file h g1 (hd dummy_msg (ss_msgs ss1)) = Some (f2, g2) ->
+  rec_wf r = true -> denote_record ss1 r = Some ss2 ->
+  ser_record r = cut ++ rem -> rem <> [] ->
+  wf rd fuel ->
+  exists cr e file' f g',
+    entry_DecodeChained o g rd fuel = TDone cr /\ cr_err cr = Some (EIO e) /\ cr_files cr = fs1 ++ [file'] /\
+    route_msgs h g1 (ss_msgs ss1) = Some (f, g') /\
+    f_slots file' = f_slots f /\ f_inited file' = f_inited f /\ f_header file' = h.
+Proof. exact DecodeChained_partial_files. Qed.
+Print Assumptions C11_chained_partial_files.
+
+(* ---- DecodeHeaderAndFileID ---- *)
+(* whole-entry cut statement, for every input: if the call succeeds on bs there is a number of bytes it needs (the
+   header and what the file_id prologue consumed) such that EVERY shorter prefix, through any reader ending in EOF or
+   a fault, is an error, and every input agreeing with bs on that many bytes succeeds with the same results *)
+Theorem C11_DecodeHeaderAndFileID_threshold : forall g bs r,
+  entry_DecodeHeaderAndFileID g (solo bs) (solo_fuel bs) = TDone r -> dr_err r = None ->
+  exists need, need <= List.length bs /\
+    (forall k rd fuel, k < need -> rd_data rd = firstn k bs -> wf rd fuel ->
+       exists r' e, entry_DecodeHeaderAndFileID g rd fuel = TDone r' /\ dr_err r' = Some e) /\
+    (forall rd fuel, firstn need (rd_data rd) = firstn need bs -> need <= List.length (rd_data rd) -> wf rd fuel ->
+       exists r', entry_DecodeHeaderAndFileID g rd fuel = TDone r' /\ dr_err r' = None /\ dr_hdr r' = dr_hdr r /\
+                  dr_file r' = dr_file r /\ dr_g r' = dr_g r).
+Proof. exact DecodeHeaderAndFileID_threshold. Qed.
+Print Assumptions C11_DecodeHeaderAndFileID_threshold.
+
+(* and for a file beginning with a well-formed header, file_id definition and file_id data record that number is
+   header size + the two records: every shorter input is an error *)
+Theorem C11_DecodeHeaderAndFileID_cut_is_error :
+  forall g rd fuel h l be fds (devflag : bool) (devs : list (N * N * N)) pay dev ssb f2 g1 tl k,
+  let r1 := RDef l be c_MesgNumFileId fds devflag devs in
+  let r2 := RData l pay dev in
+  header_wf h ->
+  List.length (ser_record r1) + List.length (ser_record r2) <= N.to_nat (h_dsize h) ->
+  rec_wf r1 = true -> rec_wf r2 = true -> denote_from ss_init [r1; r2] = Some ssb ->
+  start_file h g (hd dummy_msg (ss_msgs ssb)) = Some (f2, g1) ->
+  k < N.to_nat (h_size h) + List.length (ser_record r1) + List.length (ser_record r2) ->
+  rd_data rd = firstn k (hdr_bytes h ++ (ser_record r1 ++ ser_record r2) ++ tl) -> wf rd fuel ->
+  exists res e, entry_DecodeHeaderAndFileID g rd fuel = TDone res /\ dr_err res = Some e.
+Proof. exact DecodeHeaderAndFileID_cut_is_error. Qed.
+
+(* the hypotheses are satisfiable and the conclusions visible on the in-domain stream ok_stream framed by ok_hdr:
+   the domain holds; at every offset of its data section Decode returns an I/O error with a File (read in chunks of
+   2, 0, 5 bytes, the fault arriving together with the last chunk); a cut inside the checksum gives EFileCRCRead with
+   a File; DecodeHeaderAndFileID fails on every prefix shorter than 12 + 9 + 2 bytes and succeeds from there on *)
+Example C11_example_domain :
+  header_wf ok_hdr /\ h_dsize ok_hdr = N.of_nat (List.length (ser_records ok_stream)) /\
+  starts_with_file_id ok_stream = true /\ stream_wf ok_stream = true /\
+  exists ss f2 g1, denote ok_stream = Some ss /\ start_file ok_hdr g_init (hd dummy_msg (ss_msgs ss)) = Some (f2, g1) /\
+                   no_file_id (List.tl (ss_msgs ss)) = true /\ (3 <= List.length (ss_msgs ss))%nat.
+Proof. exact ex_domain. Qed.
+Example C11_example_partial_every_offset :
+  forallb (fun n => is_io_error_with_file
+             (entry_Decode no_opts g_init
+                (mk_reader (hdr_bytes ok_hdr ++ firstn n (ser_records ok_stream)) [2; 0; 5] TFault true 0) 200))
+          (seq 0 (List.length (ser_records ok_stream))) = true.
+Proof. exact ex_partial_every_offset. Qed.
+Example C11_example_cut_in_crc :
+  match entry_Decode no_opts g_init (mk_reader (hdr_bytes ok_hdr ++ ser_records ok_stream ++ [7%N]) [] TEOF false 0) 200 with
+  | TDone r => dr_err r = Some EFileCRCRead /\ dr_file r <> None
+  | _ => False
+  end.
+Proof. exact ex_cut_in_crc. Qed.
+Example C11_example_fileid_threshold :
+  forallb (fun k => match entry_DecodeHeaderAndFileID g_init (mk_reader (firstn k (fit_file ok_hdr ok_stream)) [3] TEOF false 0) 200 with
+                    | TDone r => match dr_err r with Some _ => Nat.ltb k 23 | None => Nat.leb 23 k end
+                    | _ => false
+                    end) (seq 0 68) = true.
+Proof. exact ex_fileid_threshold. Qed.
+
+(* No PARTIAL item is left in this file.  Scope of partial_files: the theorem is about files of the domain of
+   Decode_denote (docs/notes-C02-stream.md: serialisable records, canonical base-type bytes, a file type with a
+   container); "the messages" are the slots of the File (route_msgs); the unknown-message / unknown-field counters of
+   a partial File are the subject of C16 (Decode_counts_on_failure).  Outside Coq: the theorems speak about the
+   model; reader.go is tied to it by the lock-step run on every cut and fault offset of every stream of the harness,
+   where the partial Files are also judged against the extracted reference semantics. *)
